@@ -49,6 +49,18 @@ def _law_of(case):
     return [fr(x) for x in case["mean"]], cov
 
 
+def _reuse_prelude(model, kwargs, seed, make_param):
+    """Every second case: before the judged call, the caller uses the very same shift / noise dictionaries in another call
+    that also do-intervenes on one of their targets.  The dictionaries are the caller's: what they say afterwards is what
+    the judged call must implement."""
+    own = [kwargs[k] for k in ("noise_interventions", "shift_interventions") if kwargs.get(k)]
+    if seed % 2 or not own or "do_interventions" in kwargs:
+        return
+    t = sorted(own[0])[0]
+    pre = {k: v for k, v in kwargs.items() if k != "do_interventions"}
+    must(lib(model.sample, 3, random_state=1, do_interventions={t: make_param()}, **pre), "sample(prelude re-using the caller's dicts)")
+
+
 def _sample(case, n, seed):
     import sempler
     import sempler.noise as noise
@@ -77,6 +89,7 @@ def _sample(case, n, seed):
                 if case["prelude"].get(nm):
                     pre[key] = c01._interventions(case["prelude"][nm], "dict")
             must(lib(model.sample, 3, random_state=1, **pre), "LGANM.sample(prelude %r)" % (pre,))
+        _reuse_prelude(model, kwargs, seed, lambda: (7, 2))
         return must(lib(model.sample, n, random_state=seed, **kwargs), "LGANM.sample(%d, %r)" % (n, kwargs))
     # ANM twin
     Wf = Warr.astype(float)
@@ -97,6 +110,7 @@ def _sample(case, n, seed):
                 m, var = c01._param(v)
                 d[int(t)] = noise.normal(float(m), float(var))
             kwargs[key] = d
+    _reuse_prelude(anm, kwargs, seed, lambda: noise.normal(7.0, 2.0))
     return must(lib(anm.sample, n, random_state=seed, **kwargs), "ANM.sample(%d, interventions on %s)" % (n, {k: sorted(v) for k, v in kwargs.items()}))
 
 
